@@ -143,7 +143,7 @@ def main(tier):
         if os.path.exists(f): os.remove(f)
     total_beh = 0; total_calls = 0
     # ---- M + R, exhaustive
-    bounds = [(2, 3, 3, 7, [0, 1, 2])] if quick else [(3, 4, 3, 7, [0, 1, 2]), (2, 2, 3, 10, [0, 1])]
+    bounds = [(2, 3, 3, 7, [0, 1, 2])] if quick else [(3, 4, 3, 7, [0, 1, 2]), (2, 2, 3, 8, [0, 1])]
     for (ng, ns, nh, depth, thr) in bounds:
         cfg = vlib.write_cfg("GcHeap_%d_%d_%d_%d.cfg" % (ng, ns, nh, depth), cfg_text(ng, ns, nh, depth, thr))
         res, mism, summ = stream(exe, "gcheap", cfg, ng, nh, workers=12 if quick else 14, timeout=900 if quick else 6000,
